@@ -23,10 +23,12 @@ import genhist
 WALK_SPELLING_SIG = "walk.info/files/dirs(path) report paths under the caller's spelling of the start path"
 C10_CACHED_PAGE_HIT = "cache_directory: scandir(path, page=...) answered from the cache ignores the page"
 C10_CACHED_PAGE_MISS = "cache_directory: scandir(path, page=...) on a cache miss stores the page as the whole directory"
+C10_MOUNTPOINT_DETAILS = ("MountFS: scandir(parent) reports a mount point with the details of the placeholder directory, "
+                          "getinfo(mount point) with those of the mounted filesystem's root")
 C05_ALIAS_WORKERS = ("OSFS copy_dir/move_dir(workers>0) onto another name of the source (hard-link snapshot, symlinked "
                      "directory): the worker threads truncate the shared files")
 C05_ALIAS_MOVE_LINK = "OSFS move of a symbolic link onto the file it points to: the file's name is left as a dangling link"
-PENDING_FINDINGS = [C05_ALIAS_WORKERS, C05_ALIAS_MOVE_LINK]
+PENDING_FINDINGS = [C05_ALIAS_WORKERS, C05_ALIAS_MOVE_LINK, C10_MOUNTPOINT_DETAILS]
 # (the three C10/C11 signatures above were genuine defects, repaired in /repo (b3334b1, 2e1ab1a): violations again if they return)
 
 _MT = re.compile(r"@(N|Si-?\d+)")
@@ -778,6 +780,33 @@ def replay(report, path):
         for sx, r in zip(d["spellings"], outs):
             print("replay", bc.name, q[0], repr(sx), "->", r)
         return 1 if len(set(outs)) > 1 else 0
+    if d.get("kind") == "mount-point-spellings-disagree":
+        n = len(d["existing_mounts"])
+        a, b2 = mount_observe(d["spelling_a"], n), mount_observe(d["spelling_b"], n)
+        print("replay MountFS with mounts", d["existing_mounts"], ": mount(%r) ->" % d["spelling_a"], a[0], a[1],
+              "| mount(%r) ->" % d["spelling_b"], b2[0], b2[1], "| same routing afterwards:", a[2:] == b2[2:])
+        return 1 if a != b2 else 0
+    if d.get("kind") == "spellings-disagree-on-read-only-archive":
+        bc2 = dict((c.name, c) for c in [ReadZip, ReadTar] + C10_HETERO)[d["backend"]]
+        b = bc2()
+        try:
+            b.make()
+            fsx = b.load([op_from_json(o) for o in d["history"]])
+            q = d["query"]
+            outs = [exec_q(fsx, (q[0], sx) + tuple(q[1:])) for sx in d["spellings"]]
+        finally:
+            b.close()
+        for sx, r in zip(d["spellings"], outs):
+            print("replay", bc2.name, q[0], repr(sx), "->", r[:200])
+        return 1 if len(set(outs)) > 1 else 0
+    if d.get("kind") == "aliased-name-data-destroyed":
+        _n, res = run_alias_family(True)
+        hit = [r for r in res if (r["call"], r["src"], r["dst"]) == (d["call"], d["src"], d["dst"])]
+        for r in hit:
+            print("replay OSFS", r["call"], r["src"], "->", r["dst"], ":", r["outcome"], "| files that lost their bytes:",
+                  r["files_that_lost_their_bytes"], "| source content nowhere:",
+                  r["source_content_neither_at_source_nor_destination"])
+        return 1 if hit else 0
     if d.get("kind") == "multifs-layer-order":
         n, bad = layer_case(d["case_seed"], d["case_index"])
         for x in bad:
@@ -1131,6 +1160,8 @@ def same_object_cases(rnd, n):
             sp = rnd.choice(vfiles)
             dp = {"equal": rnd.choice(eq_spell)(sp), "inside": sp + "/new", "ancestor": sp.rsplit("/", 1)[0] or "/",
                   "sibling": rnd.choice(vfiles), "new": rnd.choice(vdirs).rstrip("/") + "/new"}[rel]
+        if rel != "equal" and sp.rstrip("/") == dp.rstrip("/"):
+            rel = "equal"
         out.append((hist, kind, view, fn, sp, dp, rel, rnd.choice([0, 1, 4]), rnd.random() < 0.4))
     return out
 
@@ -1388,7 +1419,7 @@ def run_alias_family(thorough):
                 sym = bool(lost) and not undelivered and all(not under(nm, src) for nm in lost) and (
                     kind == "removetree" or (kind == "movedir" and has_dir_link and not any(
                         under(nm, dst) for nm in lost)))
-                results.append(dict(call=label, kind=kind, src=src, dst=dst, outcome=out, files_that_lost_their_bytes=lost,
+                results.append(dict(call=label, operation=kind, src=src, dst=dst, outcome=out, files_that_lost_their_bytes=lost,
                                     source_is_link=pre.get(src, ("?",))[0] == "f",
                                     source_content_neither_at_source_nor_destination=undelivered,
                                     removetree_through_symlink=sym))
@@ -1456,28 +1487,33 @@ def run_c05(report):
     cases = cross_cases(rnd, 1500 if thorough else 260)
     pairs = [(B.Mem, B.Mem), (B.Mem, B.OS), (B.OS, B.Mem), (B.OS, B.OS), (B.SubMem, B.Mem), (B.Mem, B.Wrap)]
     cross_meta = {}
+    runaway = set()         # cases that ran into the 5 s watchdog (known findings): not repeated with worker threads
     for i, c in enumerate(cases):
         st, meta = run_cross(c, pairs[i % len(pairs)])
         cross_meta[len(steps)] = (c, meta)
         steps.append(st)
+        if st.outcome.startswith("crash:NonTermination") or st.post.startswith("SNAPFAIL"):
+            runaway.add(("c", i))
     vcases = view_cases(rnd, 1200 if thorough else 220)
-    for c in vcases:
+    for i, c in enumerate(vcases):
         st, meta = run_view(c)
         cross_meta[len(steps)] = (c, meta)
         steps.append(st)
+        if st.outcome.startswith("crash:NonTermination") or st.post.startswith("SNAPFAIL"):
+            runaway.add(("v", i))
     # the same cross / view families with worker threads (1 and 4; the file functions take none) and preserve_time
     # toggled, and the degenerate relations on ONE filesystem object with 0 / 1 / 4 workers
     n_before_workers = len(steps)
     dirfn = ("move_dir", "copy_dir", "move_fs", "copy_fs")
     for i, c in enumerate(cases):
-        if c[2] in dirfn and (thorough or i % 2 == 0):
+        if c[2] in dirfn and (thorough or i % 2 == 0) and ("c", i) not in runaway:
             for w in ((1, 4) if thorough else ((1, 4)[(i // 2) % 2],)):
                 st, meta = run_cross(c, pairs[i % len(pairs)], workers=w, flip_pt=(i % 3 == 0))
                 cross_meta[len(steps)] = (c, meta + (w,))
                 steps.append(st)
     for i, c in enumerate(vcases):
         isdirfn = c[4] in dirfn
-        if not thorough and i % 2 and not isdirfn:
+        if (not thorough and i % 2 and not isdirfn) or ("v", i) in runaway:
             continue
         for w in ((1, 4) if thorough and isdirfn else ((1, 4)[i % 2] if isdirfn else 0,)):
             st, meta = run_view(c, workers=w, pt=(i % 3 != 0))
@@ -1514,7 +1550,8 @@ def run_c05(report):
         sig = "%s.%s %s" % (s.backend, s.op[0], "predicate" if v != "T" else s.outcome)
         rel = transfer_relation(s)
         if rel:
-            sig = "%s %s" % (s.op[0] if i not in cross_meta else cross_meta[i][1][0], rel)
+            # (one object as source and destination: fs.move.move_dir(fs, a, fs, b) is what fs.movedir(a, b) runs)
+            sig = "%s %s" % (s.op[0] if i not in cross_meta or "](one " in s.backend else cross_meta[i][1][0], rel)
             if " of one " in s.backend:     # view cases: the storage kind matters (OSFS has a rename shortcut)
                 sig += " [" + s.backend.split(" of one ")[1].rstrip(")") + "]"
         known = report.known_match(sig)
@@ -1544,7 +1581,7 @@ def run_c05(report):
         cls = re.sub(r"\(.*", "", r["call"])
         if r["removetree_through_symlink"]:
             sig = "OSFS.removetree symlink-target-emptied"
-        elif r["kind"] == "move" and r["source_is_link"]:
+        elif r["operation"] == "move" and r["source_is_link"]:
             sig = C05_ALIAS_MOVE_LINK
         elif "two OSFS objects" in r["call"]:
             sig = "%s source and destination are the same resource (reached through two filesystem objects) [os2]" % cls
@@ -1856,6 +1893,63 @@ def query_check(fs, path, is_dir_expected=None):
     return bad
 
 
+def _answers(fs, path, is_dir):
+    """What the queries say about one spelling of a path (errors by class; anything else as a crash)."""
+    import fs.errors as E
+
+    def q(f):
+        try:
+            return ("ok", f())
+        except E.FSError as e:
+            return ("err", type(e).__name__)
+        except Exception as e:  # noqa
+            return ("crash", type(e).__name__)
+
+    def raw(ns):
+        r = json.loads(json.dumps(fs.getinfo(path, namespaces=ns).raw, sort_keys=True, default=str))
+        r.get("details", {}).pop("accessed", None)
+        r.get("details", {}).pop("metadata_changed", None)
+        return r
+
+    def opened():
+        with fs.openbin(path, "r") as f:
+            return f.read()
+    out = [("exists", q(lambda: fs.exists(path))), ("isdir", q(lambda: fs.isdir(path))),
+           ("isfile", q(lambda: fs.isfile(path))), ("getinfo()", q(lambda: raw(None))),
+           ("getinfo(details,access,link,zip,tar)", q(lambda: raw(["details", "access", "link", "zip", "tar"]))),
+           ("gettype", q(lambda: int(fs.gettype(path)))), ("getsize", q(lambda: 0 if is_dir else fs.getsize(path)))]
+    if is_dir:
+        out += [("listdir", q(lambda: sorted(fs.listdir(path)))),
+                ("scandir", q(lambda: sorted(i.name for i in fs.scandir(path)))),
+                ("isempty", q(lambda: fs.isempty(path)))]
+    else:
+        out += [("readbytes", q(lambda: fs.readbytes(path))), ("openbin.read", q(opened))]
+    return out
+
+
+def spelling_check(fs, path, thorough):
+    """C10 x spellings: the answers of the battery's queries for other spellings of the path (relative, doubled and
+    trailing slashes, './', '/.', 'zz/../' detours) must be the answers for the canonical spelling."""
+    import zlib
+    try:
+        is_dir = fs.isdir(path)
+    except Exception:  # noqa
+        is_dir = False
+    alts = [x for x in spellings(path, None, ["zz"]) if x != path]
+    if not thorough:
+        k = zlib.crc32(path.encode("utf8"))
+        alts = [alts[(k + j * 5) % len(alts)] for j in range(2)]
+    base = _answers(fs, path, is_dir)
+    bad = []
+    for sx in alts:
+        for (label, a), (_l, b) in zip(base, _answers(fs, sx, is_dir)):
+            if a != b:
+                bad.append("spelling %r of %r: %s answers %s, for the canonical spelling %s"
+                           % (sx, path, label, str(b)[:80], str(a)[:80]))
+                break
+    return bad
+
+
 def run_c10(report):
     proof = common.preflight(report)
     thorough = report.tier == "thorough"
@@ -1863,10 +1957,11 @@ def run_c10(report):
     total = 0
     bad = []
     nontrivial = set()
-    backs = list(B.ALL) + [ReadZip, ReadTar, MultiLayered] + C10_WRAPPED
+    backs = list(B.ALL) + [ReadZip, ReadTar, MultiLayered] + C10_WRAPPED + C10_HETERO
     per = collections.Counter()
+    n_spell = 0
     for bc in backs:
-        for hi, h in enumerate(hs if bc in (B.Mem, B.OS) or thorough else hs[:25]):
+        for hi, h in enumerate(hs if bc in (B.Mem, B.OS) or thorough else hs[:8] if bc in C10_HETERO else hs[:25]):
             b = bc()
             try:
                 fs = b.make()
@@ -1887,11 +1982,21 @@ def run_c10(report):
                                 fs.setinfo(p0, {"details": {"modified": 0, "accessed": 0}})
                             except Exception:
                                 pass
-                    paths = ["/"] + [p for p, _i in fs.walk.info()] + ["/nope", "/nope/x"]
+                    try:
+                        walked = [p for p, _i in fs.walk.info()]
+                    except Exception as e:  # noqa  (the battery below says which listing fails where)
+                        walked = list(getattr(b, "known_paths", []))
+                        bad.append((bc.name, h[:k + 1] if o is not None else h, "/",
+                                    ["walk of the whole filesystem fails: %s" % common.exc_name(e)]))
+                    # (resources the construction put there must be found, whatever the walk says)
+                    paths = ["/"] + sorted(set(walked) | set(getattr(b, "known_paths", []))) + ["/nope", "/nope/x"]
                     for p in paths:
                         total += 1
                         per[bc.name] += 1
                         r = query_check(fs, p)
+                        if thorough or o is None or k >= len(seq) - 2:     # quick tier: in the last state checked
+                            r = r + spelling_check(fs, p, thorough)
+                            n_spell += 1
                         nontrivial.add((bc.name, len(paths), p, fs.isdir(p)))
                         if r:
                             bad.append((bc.name, h[:k + 1] if o is not None else h, p, r))
@@ -1906,6 +2011,10 @@ def run_c10(report):
         if "cache_directory" in name and "after a paged scandir" in name:
             bad2.append((name, h, p, r, C10_CACHED_PAGE_MISS))
             continue
+        mp = [x for x in r if re.match(r"scandir details != getinfo details for '(%s|zip2)'" % "|".join(HETERO_KINDS), x)]
+        if name == HeteroMount.name and mp and p in ("/", "/deep/er"):
+            bad2.append((name, h, p, mp, C10_MOUNTPOINT_DETAILS))
+            r = [x for x in r if x not in mp]
         pg = [x for x in r if x.startswith("page (")]
         if "cache_directory" in name and pg:
             bad2.append((name, h, p, pg, C10_CACHED_PAGE_HIT))
@@ -1931,7 +2040,11 @@ def run_c10(report):
              "isdir/isfile/getinfo/gettype/getsize/readbytes/listdir/scandir/filterdir/one-level walk/isempty/"
              "pages are compared with each other; non-trivial = distinct (backend, tree size, path, kind)",
         disagreements_checked=len(bad), per_backend=dict(per), traces_validated_against_impl=total - len(bad),
-        wrapper_objects=[bc.name for bc in C10_WRAPPED], pending_findings_seen=dict(pending_seen)),
+        wrapper_objects=[bc.name for bc in C10_WRAPPED], pending_findings_seen=dict(pending_seen),
+        heterogeneous_compositions=[bc.name for bc in C10_HETERO], paths_queried_with_other_spellings=n_spell,
+        spelling_rule="every path of the battery is also queried (exists/isdir/isfile/getinfo with and without "
+                      "namespaces/gettype/getsize/readbytes/openbin/listdir/scandir/isempty) with other spellings "
+                      "(2 per path in the quick tier, all in the thorough tier); answers must equal the canonical ones"),
         ["consistency is checked among the implementation's own answers; the model-level theorem is Props/C10.v"])
 
 
@@ -2078,6 +2191,127 @@ class WrappedLoadedPaged(WrappedLoaded):
         return fs
 
 
+def _archive_of(src, kind):
+    """A read-only ZipFS / TarFS holding the content of the filesystem src."""
+    from fs.compress import write_zip, write_tar
+    buf = io.BytesIO()
+    (write_zip if kind == "zip" else write_tar)(src, buf)
+    buf.seek(0)
+    if kind == "zip":
+        from fs.zipfs import ZipFS
+        return ZipFS(buf)
+    from fs.tarfs import TarFS
+    return TarFS(buf)
+
+
+HETERO_KINDS = ["mem", "zip", "tar", "cached", "ro", "os"]
+
+
+class HeteroMulti(B.Backend):
+    """MultiFS over members of different kinds (writable MemoryFS, read-only ZipFS and TarFS, cache_directory and
+    read_only wrappers, OSFS).  The tree built by the history is dealt out: every file and directory goes to a
+    non-empty subset of the members chosen by a hash of its path (one, several, or all of them), with the same bytes
+    everywhere, so directories exist in some members and not in others; one directory per member exists only there."""
+    name = "MultiFS(MemoryFS + ReadZipFS + ReadTarFS + cache_directory + read_only + OSFS members, tree dealt out)"
+    priorities = dict(mem=10, zip=5, tar=0, cached=0, ro=-1, os=3)
+
+    def make(self):
+        from fs.memoryfs import MemoryFS
+        self.fs = self.src = MemoryFS()
+        self.tmp = None
+        self.parts = []
+        return self.fs
+
+    def deal(self, h):
+        """-> {kind: MemoryFS with that member's share}"""
+        import zlib
+        from fs.memoryfs import MemoryFS
+        from fs.path import dirname
+        for o in h:
+            fsops.execute(self.src, o)
+        share = dict((k, MemoryFS()) for k in HETERO_KINDS)
+        for i, k in enumerate(HETERO_KINDS):
+            share[k].makedirs("only-%s/sub" % k)
+            share[k].writebytes("only-%s/sub/f" % k, k.encode())
+        for p, info in self.src.walk.info():
+            mask = zlib.crc32(p.encode("utf8")) % 63 + 1
+            for i, k in enumerate(HETERO_KINDS):
+                if mask >> i & 1:
+                    if info.is_dir:
+                        share[k].makedirs(p, recreate=True)
+                    else:
+                        share[k].makedirs(dirname(p), recreate=True)
+                        share[k].writebytes(p, self.src.readbytes(p))
+        return share
+
+    def member(self, kind, part):
+        import tempfile
+        import fs.copy
+        from fs.osfs import OSFS
+        from fs.wrap import cache_directory, read_only
+        if kind == "mem":
+            return part
+        if kind in ("zip", "tar"):
+            m = _archive_of(part, kind)
+            part.close()
+            return m
+        if kind == "cached":
+            return cache_directory(part)
+        if kind == "ro":
+            return read_only(part)
+        self.tmp = tempfile.mkdtemp(prefix="pyfs2verif_")
+        m = OSFS(self.tmp)
+        fs.copy.copy_fs(part, m)
+        part.close()
+        return m
+
+    def load(self, h):
+        from fs.multifs import MultiFS
+        share = self.deal(h)
+        self.known_paths = sorted(set(p for k in HETERO_KINDS for p, _i in share[k].walk.info()))
+        self.fs = MultiFS()
+        for k in HETERO_KINDS:
+            self.fs.add_fs(k, self.member(k, share[k]), write=(k == "mem"), priority=self.priorities[k])
+        self.src.close()
+        return self.fs
+
+    def close(self):
+        B.Backend.close(self)
+        if self.tmp:
+            common.rm_rf(self.tmp)
+
+
+class HeteroMultiArchivesFirst(HeteroMulti):
+    """The same with the archives and the directory cache searched before the plain members."""
+    name = "MultiFS(ReadTarFS + cache_directory + ReadZipFS above MemoryFS + OSFS + read_only, tree dealt out)"
+    priorities = dict(mem=0, zip=7, tar=9, cached=8, ro=2, os=1)
+
+
+class HeteroMount(HeteroMulti):
+    """MountFS with one mount per member kind (+ one below a deeper path, + files in the default filesystem)."""
+    name = "MountFS(MemoryFS, ReadZipFS, ReadTarFS, cache_directory, read_only, OSFS mounted)"
+
+    def load(self, h):
+        from fs.mountfs import MountFS
+        from fs.memoryfs import MemoryFS
+        share = self.deal(h)
+        again = MemoryFS()
+        import fs.copy
+        fs.copy.copy_fs(self.src, again)
+        self.known_paths = sorted(set("/" + k + p for k in HETERO_KINDS for p, _i in share[k].walk.info()))
+        self.fs = MountFS()
+        for k in HETERO_KINDS:
+            self.fs.mount(k, self.member(k, share[k]))
+        self.fs.mount("deep/er/zip2", _archive_of(again, "zip"))
+        again.close()
+        self.fs.writebytes("plain.txt", b"in the default filesystem")
+        self.fs.makedirs("deep/beside")
+        self.src.close()
+        return self.fs
+
+
+C10_HETERO = [HeteroMulti, HeteroMultiArchivesFirst, HeteroMount]
+
 C10_WRAPPED = [WrappedLoaded, WrappedLoadedPeek, ReadOnlyLoaded, ReadOnlyLoadedPeek, ReadOnlyCachedLoadedPeek,
                SubCachedLoadedPeek, WrappedLoadedPaged]
 
@@ -2137,6 +2371,12 @@ def exec_q(fs, op):
             if n == "getinfo0":
                 i = fs.getinfo(op[1])
                 return "ok:(%s|%s)" % (common.r_str(i.name), common.r_bool(i.is_dir))
+            if n == "getinfo_ns":       # every standard namespace an archive / OS filesystem carries, raw
+                raw = json.loads(json.dumps(fs.getinfo(op[1], namespaces=["details", "access", "link", "zip", "tar"]).raw,
+                                            sort_keys=True, default=str))
+                raw.get("details", {}).pop("accessed", None)
+                raw.get("details", {}).pop("metadata_changed", None)
+                return "ok:" + json.dumps(raw, sort_keys=True)
             if n == "scandir0":
                 return "ok:[" + ";".join(sorted("(%s|%s)" % (common.r_str(i.name), common.r_bool(i.is_dir))
                                                 for i in fs.scandir(op[1]))) + "]"
@@ -2249,6 +2489,134 @@ def longlived_round(bc, rnd, thorough):
     finally:
         b.close()
     return calls, groups, soft
+
+
+def archive_spelling_block(rnd, hs, thorough):
+    """Read-only archives (ReadZipFS / ReadTarFS written from a populated tree) and the heterogeneous compositions:
+    every read-only call kind x key paths x all spellings on the one object; the answers must coincide."""
+    total = groups = 0
+    bad = []
+    per = collections.Counter()
+    queries = LONG_QUERIES + [("getinfo_ns",)]
+    use = [h for h in hs if any(o[0] == "writebytes" for o in h)][: (40 if thorough else 5)]
+    for bc in [ReadZip, ReadTar] + (C10_HETERO if thorough else [HeteroMulti]):
+        for h in (use if bc in (ReadZip, ReadTar) or thorough else use[:2]):
+            g = genhist.Gen(rnd, spell=0.0, odd=0.1)
+            for o in h:
+                fsops.execute(g.shadow, o)
+            files, dirs = g.existing()
+            b = bc()
+            try:
+                b.make()
+                fs = b.load(h)
+                prefix = ""
+                if bc is HeteroMount:
+                    prefix = "/zip"
+                keys = dirs + files
+                if not thorough and len(keys) > 5:
+                    keys = ["/"] + rnd.sample(keys[1:], 4)
+                keys = keys + ["/" + x.lstrip("/") for x in [g.path("new"), g.path("noparent")] +
+                               ([g.path("belowfile")] if files else [])]
+                det = ["zz"] + g.shadow.listdir("/")[:2]
+                stop = False
+                for p in keys:
+                    sp = spellings(prefix + p, rnd, det)
+                    if not thorough and len(sp) > 7:
+                        sp = sp[:4] + rnd.sample(sp[4:], 3)
+                    for q in queries:
+                        res = [(sx, exec_q(fs, (q[0], sx) + q[1:])) for sx in sp]
+                        total += len(res)
+                        groups += 1
+                        per[bc.name] += 1
+                        for r in res[1:]:
+                            if r[1] != res[0][1]:
+                                bad.append(dict(backend=bc.name, history=h, query=q, path=prefix + p, results=res,
+                                                a=res[0], b=r))
+                                stop = True
+                                break
+                        if stop:
+                            break
+                    if stop:
+                        break
+            finally:
+                b.close()
+    return total, groups, dict(per), bad
+
+
+def mount_state(n_mounts):
+    """A MountFS with 0, 1 or 2 mounts (m1 holding sub/x.txt; a/b nested below a plain directory)."""
+    from fs.mountfs import MountFS
+    from fs.memoryfs import MemoryFS
+    m = MountFS()
+    members = {}
+    if n_mounts >= 1:
+        first = MemoryFS()
+        first.makedir("sub")
+        first.writebytes("sub/x.txt", b"first")
+        m.mount("/m1", first)
+        members["first"] = first
+    if n_mounts >= 2:
+        second = MemoryFS()
+        second.writebytes("y.txt", b"second")
+        m.mount("a/b", second)
+        members["second"] = second
+    return m, members
+
+
+MOUNT_TARGETS = ["/m2", "/m1", "/m1/sub", "/m1/sub/deeper", "/a", "/a/b", "/a/b/c", "/a/c", "/x/y", "/"]
+
+
+def mount_observe(path_spelling, n_mounts):
+    """mount(<spelling>, new filesystem) on a fresh MountFS in the given state -> (verdict, observable routing)."""
+    import fs.path as P
+    from fs.memoryfs import MemoryFS
+    m, members = mount_state(n_mounts)
+    new = MemoryFS()
+    new.writebytes("n.txt", b"new")
+    try:
+        out = _guarded(lambda: m.mount(path_spelling, new))
+        canon = P.abspath(P.normpath(path_spelling))
+        obs = [out, sorted(mp for mp, _f in m.mounts)]
+        for probe in ["/", canon, P.join(canon, "n.txt"), "/m1", "/m1/sub", "/m1/sub/x.txt", "/a", "/a/b", "/a/b/y.txt"]:
+            obs.append((probe, exec_q(m, ("isdir", probe)), exec_q(m, ("listdir", probe)),
+                        exec_q(m, ("readbytes", probe))))
+        # where does a write below the mount point land?
+        w = exec_q(m, ("writebytes", P.join(canon, "w.txt"), b"w"))
+        obs.append(("write", w, sorted(new.listdir("/")),
+                    sorted((k, sorted(p for p, _i in v.walk.info())) for k, v in members.items()),
+                    sorted(p for p, _i in m.default_fs.walk.info())))
+    finally:
+        try:
+            m.close()
+            new.close()
+        except Exception:  # noqa
+            pass
+    return obs
+
+
+def mount_spelling_block(rnd, thorough):
+    """MountFS.mount(path, fs): every spelling of the mount-point argument gives the same verdict and the same routing
+    afterwards, in states with 0, 1 and 2 existing mounts (detours through the existing mount points' names included)."""
+    total = groups = 0
+    bad = []
+    for n_mounts in (0, 1, 2):
+        for target in MOUNT_TARGETS:
+            sp = spellings(target, rnd, ["zz", "m1", "a"])
+            sp += [x for x in ("m1/sub/../.." + target, "a/b/.." + ("/../" + target.lstrip("/") if target != "/" else "/.."),
+                               "/." + target, "." + target.rstrip("/") + "/") if x not in sp]
+            if not thorough and len(sp) > 12:
+                sp = sp[:6] + rnd.sample(sp[6:], 6)
+            res = [(sx, mount_observe(sx, n_mounts)) for sx in sp]
+            total += len(res)
+            groups += 1
+            for r in res[1:]:
+                if r[1] != res[0][1]:
+                    diff = [(x, y) for x, y in zip(res[0][1], r[1]) if x != y][:2]
+                    bad.append(dict(existing_mounts=["/m1", "/a/b"][:n_mounts], mount_point=target,
+                                    spelling_a=res[0][0], verdict_a=res[0][1][0], mounts_a=res[0][1][1],
+                                    spelling_b=r[0], verdict_b=r[1][0], mounts_b=r[1][1], first_differences=repr(diff)[:800]))
+                    break
+    return total, groups, bad
 
 
 def run_c11(report):
@@ -2367,6 +2735,40 @@ def run_c11(report):
                               spellings=[r[0] for r in d["results"]], results=[r[1] for r in d["results"]],
                               spelling_a=d["a"][0], result_a=d["a"][1], spelling_b=d["b"][0], result_b=d["b"][1],
                               theorem="Props/C11.v"))
+    # read-only archives and heterogeneous compositions: the read-only calls with every spelling on one object
+    ar_total, ar_groups, ar_per, ar_bad = archive_spelling_block(rnd, hs, thorough)
+    total += ar_total
+    groups += ar_groups
+    for d in ar_bad:
+        sig = "%s.%s spellings (populated, read-only)" % (d["backend"], d["query"][0])
+        known = report.known_match(sig)
+        if known:
+            report.known_finding(known)
+            continue
+        if sig in PENDING_FINDINGS or sig in seen_ll or len(seen_ll) >= 10:
+            continue
+        seen_ll.add(sig)
+        nontrivial.add((d["backend"], d["query"][0], "archive", d["a"][1][:30]))
+        report.violation(dict(kind="spellings-disagree-on-read-only-archive", backend=d["backend"], signature=sig,
+                              history=[op_json(o) for o in d["history"]], query=list(d["query"]), path=d["path"],
+                              spellings=[r[0] for r in d["results"]], results=[r[1] for r in d["results"]],
+                              spelling_a=d["a"][0], result_a=d["a"][1], spelling_b=d["b"][0], result_b=d["b"][1],
+                              theorem="Props/C11.v"))
+    # MountFS.mount(path, fs): the path argument of the composition's own public method
+    mt_total, mt_groups, mt_bad = mount_spelling_block(rnd, thorough)
+    total += mt_total
+    groups += mt_groups
+    for d in mt_bad:
+        sig = "MountFS.mount path spellings (%d existing mounts)" % len(d["existing_mounts"])
+        known = report.known_match(sig)
+        if known:
+            report.known_finding(known)
+            continue
+        if sig in PENDING_FINDINGS or sig in seen_ll or len(seen_ll) >= 10:
+            continue
+        seen_ll.add(sig)
+        nontrivial.add(("MountFS", "mount", d["mount_point"], d["verdict_a"]))
+        report.violation(dict(kind="mount-point-spellings-disagree", signature=sig, theorem="Props/C11.v", **d))
     seen = set()
     for name, h, o, pos, base, r in bad:
         sig = "%s.%s arg%d" % (name, o[0], pos)
@@ -2387,7 +2789,17 @@ def run_c11(report):
              "normal form (leading/trailing/double slash, './', '/.', 'x/../' detours through missing and "
              "existing names) from identical states rebuilt by replaying the history; outcomes and trees must "
              "coincide; non-trivial = distinct (backend, call kind, position, outcome)",
-        groups=groups, disagreements_checked=len(bad) + len(ll_bad), traces_validated_against_impl=total,
+        groups=groups, disagreements_checked=len(bad) + len(ll_bad) + len(ar_bad) + len(mt_bad),
+        traces_validated_against_impl=total,
+        read_only_archive_rule="ReadZipFS / ReadTarFS written from populated trees and a heterogeneous MultiFS: every "
+                               "read-only call kind (+ getinfo with details/access/link/zip/tar namespaces, raw) x key "
+                               "paths x all spellings on the one object; answers must coincide",
+        read_only_archive_calls=ar_total, read_only_archive_groups_per_backend=ar_per,
+        read_only_archive_disagreements=len(ar_bad),
+        mount_rule="MountFS.mount(path, fs) with every spelling of %d mount points (new, equal to / inside / ancestor of "
+                   "an existing mount, root) in states with 0, 1, 2 mounts, detours through existing mount-point names "
+                   "included: verdict, mount table, routing of reads and of a write must coincide" % len(MOUNT_TARGETS),
+        mount_calls=mt_total, mount_groups=mt_groups, mount_disagreements=len(mt_bad),
         wrapper_backends_replayed=[bc.name for bc in backs if bc in B.WRAPPERS],
         one_object_rule="on ONE long-lived object per round (cache_directory / read_only wrappers and their "
                         "compositions, plain backends): queries with one or two spellings, then changes (through "
